@@ -400,6 +400,12 @@ func (p *sparser) typeName() string {
 	if p.accept("*") {
 		return "*" + p.typeName()
 	}
+	if p.isIdent("struct") {
+		p.next()
+		p.expect("{")
+		p.expect("}")
+		return "struct{}"
+	}
 	if p.isIdent("map") {
 		p.next()
 		p.expect("[")
